@@ -803,6 +803,23 @@ func ruleSGNames(c *Ctx) {
 		group := []*ssa.Function{fn0}
 		if fn0 == brc {
 			group = recordBuilderGroup(P, brc)
+		} else {
+			// a per-field step of schema generation moved into a helper that is handed the struct field
+			for _, cs := range callsIn(fn0) {
+				g := cs.Static
+				if g == nil || !P.isModuleFunc(g) || g.Blocks == nil || g == fn0 {
+					continue
+				}
+				takesField := false
+				for _, p := range g.Params {
+					if typeKey(p.Type()) == "reflect.StructField" {
+						takesField = true
+					}
+				}
+				if takesField && len(g.Params) > 1 {
+					group = append(group, g)
+				}
+			}
 		}
 		var all []*CallSite
 		for _, g := range group {
@@ -844,16 +861,35 @@ func ruleSGNames(c *Ctx) {
 				call := helper(fn, k.kind)[shared]
 				arg := stripLoadThroughLocal(call.Call.Args[0])
 				ok := false
-				for _, s := range phiSources(arg) {
-					switch x := s.(type) {
-					case *ssa.Call:
-						if x.Call.IsInvoke() && x.Call.Method.Name() == "Field" {
+				var fromField func(v ssa.Value, d int)
+				fromField = func(v ssa.Value, d int) {
+					for _, s := range phiSources(v) {
+						switch x := s.(type) {
+						case *ssa.Call:
+							if x.Call.IsInvoke() && x.Call.Method.Name() == "Field" {
+								ok = true
+							}
+						case *ssa.Extract: // from the name map lookup
 							ok = true
+						case *ssa.Parameter:
+							// the field handed to a per-field helper: what the callers pass
+							if d > 1 || x.Parent() == nil {
+								continue
+							}
+							for i, q := range x.Parent().Params {
+								if q != x {
+									continue
+								}
+								for _, site := range callersOf(P, x.Parent()) {
+									if i < len(site.Common().Args) {
+										fromField(stripLoadThroughLocal(site.Common().Args[i]), d+1)
+									}
+								}
+							}
 						}
-					case *ssa.Extract: // from the name map lookup
-						ok = true
 					}
 				}
+				fromField(arg, 0)
 				c.Check(ok, fmt.Sprintf("%s/%s-arg", fnKey(fn), k.what), P.pos(call.Pos()), "applied to the struct field itself", "the helper is not applied to the struct's own field")
 			}
 			if k.what == "name" {
@@ -1092,13 +1128,31 @@ func schemaRoles(P *Program) (worker, structFn *ssa.Function) {
 			}
 			switch cs.Iface.Name() {
 			case "Kind":
-				for _, r := range referrersOf(cs.Value()) {
-					if bo, ok := r.(*ssa.BinOp); ok && bo.Op == token.EQL {
-						if k, isK := constInt(bo.Y); isK {
-							kinds[k] = true
+				var cmpOf func(v ssa.Value, d int)
+				cmpOf = func(v ssa.Value, d int) {
+					for _, r := range referrersOf(v) {
+						switch x := r.(type) {
+						case *ssa.BinOp:
+							if x.Op == token.EQL || x.Op == token.NEQ {
+								if k, isK := constInt(x.Y); isK {
+									kinds[k] = true
+								}
+							}
+						case *ssa.Call:
+							// the kind handed to a helper that sorts the basic kinds out
+							g := x.Call.StaticCallee()
+							if g == nil || !P.isModuleFunc(g) || g.Blocks == nil || d > 0 {
+								continue
+							}
+							for i, a := range x.Call.Args {
+								if a == v && i < len(g.Params) {
+									cmpOf(g.Params[i], d+1)
+								}
+							}
 						}
 					}
 				}
+				cmpOf(cs.Value(), 0)
 			case "Field":
 				hasField = true
 			case "NumField":
